@@ -243,6 +243,16 @@ func (i *c17InfoBoth) Sys() any {
 func (i *c17InfoBoth) Uid() uint32 { return i.uid }
 func (i *c17InfoBoth) Gid() uint32 { return i.gid }
 
+// c17InfoUGExt states its owner through Uid()/Gid() and also carries extended attribute data.
+type c17InfoUGExt struct{ c17Info }
+
+func (i *c17InfoUGExt) Sys() any    { return nil }
+func (i *c17InfoUGExt) Uid() uint32 { return i.uid }
+func (i *c17InfoUGExt) Gid() uint32 { return i.gid }
+func (i *c17InfoUGExt) Extended() []StatExtended {
+	return []StatExtended{{ExtType: "note@verif", ExtData: "x"}}
+}
+
 func c17CmpInfo(got os.FileInfo, size int64, mode os.FileMode, mtime int64, uid, gid uint32) string {
 	var d []string
 	if got.Size() != size {
@@ -271,7 +281,7 @@ func c17Codec(c *reg.Ctx) *reg.Result {
 	mtimes := []int64{0, 1, 1_000_000_000, 1<<31 - 1, 1 << 31, 1<<32 - 1}
 	owners := [][2]uint32{{0, 0}, {1, 2}, {65534, 65533}, {1<<32 - 1, 1<<32 - 2}}
 	var i int64
-	both := false
+	both, withExt := false, false
 	one := func(m os.FileMode, size, mtime int64, own [2]uint32, viaSys bool) {
 		i++
 		if !c.Mine(i) {
@@ -285,7 +295,10 @@ func c17Codec(c *reg.Ctx) *reg.Result {
 		if both {
 			fi = &c17InfoBoth{base}
 		}
-		desc := fmt.Sprintf("mode=%v size=%d mtime=%d owner=%d:%d viaSys=%v uidgid+sys=%v", m, size, mtime, own[0], own[1], viaSys, both)
+		if withExt {
+			fi = &c17InfoUGExt{base}
+		}
+		desc := fmt.Sprintf("mode=%v size=%d mtime=%d owner=%d:%d viaSys=%v uidgid+sys=%v uidgid+extended=%v", m, size, mtime, own[0], own[1], viaSys, both, withExt)
 		res.Case(desc)
 		if i%5003 == 0 {
 			res.Sample(desc)
@@ -293,6 +306,9 @@ func c17Codec(c *reg.Ctx) *reg.Result {
 		// 1. FileStat path
 		flags, fs := fileStatFromInfo(fi)
 		wantFlags := uint32(sshFileXferAttrSize | sshFileXferAttrPermissions | sshFileXferAttrACmodTime | sshFileXferAttrUIDGID)
+		if withExt {
+			wantFlags |= sshFileXferAttrExtended
+		}
 		if flags != wantFlags {
 			res.Violate("C17", "c17-codec-flags", fmt.Sprintf("fileStatFromInfo(%s) sets flags %#x, want %#x", desc, flags, wantFlags), desc, nil)
 		}
@@ -343,12 +359,15 @@ func c17Codec(c *reg.Ctx) *reg.Result {
 							one(k.os|p, s, t, o, false)
 							both = false
 						}
+						withExt = true
+						one(k.os|p, s, t, o, false)
+						withExt = false
 					}
 				}
 			}
 		}
 	}
-	res.Bound = fmt.Sprintf("all 28672 os.FileMode values with rotating (size, mtime, owner) plus 7 kinds x 6 boundary permission words x %d sizes x %d mtimes x %d owners x 3 owner sources (Sys() only, Uid()/Gid() only, both with different owners)", len(sizes), len(mtimes), len(owners))
+	res.Bound = fmt.Sprintf("all 28672 os.FileMode values with rotating (size, mtime, owner) plus 7 kinds x 6 boundary permission words x %d sizes x %d mtimes x %d owners x 4 owner sources (Sys() only, Uid()/Gid() only, both with different owners, Uid()/Gid() next to extended attribute data)", len(sizes), len(mtimes), len(owners))
 	return res
 }
 
